@@ -26,8 +26,8 @@ func propC01() *Property {
 		},
 		Rules: []Rule{
 			{ID: "C01.R1", Title: "no unsanitised flow from remote content to the terminal or to an item's text", Floor: 12, Run: c01R1},
-			{ID: "C01.R2", Title: "SGR parameters are built from constants and validated colours only", Floor: 8, Run: c01R2},
-			{ID: "C01.R3", Title: "escape/control bytes in string literals only in the SGR generator", Floor: 3, Run: c01R3},
+			{ID: "C01.R2", Title: "SGR parameters are built from constants and validated colours only", Floor: 6, Run: c01R2},
+			{ID: "C01.R3", Title: "escape/control bytes in string literals only in the SGR generator", Floor: 1, Run: c01R3},
 		},
 	}
 }
@@ -399,8 +399,8 @@ func c01R2(c *Ctx) {
 	}
 }
 
-// c01R3: string and rune literals containing ESC, other C0 controls (except
-// \n \t \r), DEL or C1 code points occur only where the SGR generator lives.
+// c01R3: string literals containing an escape-sequence introducer (ESC or a C1
+// code point) occur only where the SGR generator lives.
 func c01R3(c *Ctx) {
 	P := c.P
 	found := 0
@@ -423,7 +423,9 @@ func c01R3(c *Ctx) {
 				}
 				var ctl []string
 				for _, r := range s {
-					if (r < 0x20 && r != '\n' && r != '\t' && r != '\r') || r == 0x7f || (r >= 0x80 && r <= 0x9f) {
+					// sequence introducers: ESC and the C1 range (CSI, OSC, DCS, …). Other
+					// C0 characters in literals (a cutset such as " \t\n\r\f") introduce nothing.
+					if r == 0x1b || (r >= 0x80 && r <= 0x9f) {
 						ctl = append(ctl, fmt.Sprintf("U+%04X", r))
 					}
 				}
